@@ -190,6 +190,28 @@ def inherited_templates(R):
                     R.counterexample('inherited-templates', 'call-differs-from-expansion', dict(case, text=text), b, a)
                 else:
                     R.traces += 1
+    # the same with byte literals (bytes input)
+    for tpl, arg, exp in [('T(p) = p', '0x61', '0x61'), ('T(p) = [p, Opt(p)]', '0x61', '[0x61, Opt(0x61)]'), ('T(p, q) = p >> q', '0x61, 0x61', '0x61 >> 0x61')]:
+        for body in ('[Lit << 0x21 | Mine << 0x62, b/.*/]', '[Expect(Lit), Mine, b/.*/]', '[Mine << 0x21 | Lit, b/.*/]'):
+            k += 1
+            base = f'grammar c06ia{k}\n{tpl}\nLit = T({arg})\nstart = Lit\n'
+            child = f'grammar c06ib{k} extends c06ia{k}\nignore Space = b/ +/\nMine = T({arg})\nstart = {body}\n'
+            flat = f'grammar c06ic{k} extends c06ia{k}\nignore Space = b/ +/\nMine = {exp}\nstart = {body}\n'
+            case = {'base': base, 'child_with_calls': child, 'child_with_expansions': flat, 'input': 'bytes'}
+            try:
+                Grammar(base)
+                gc, ge = Grammar(child), Grammar(flat)
+            except Exception as e:          # noqa
+                R.count('inherited-templates', k)
+                R.counterexample('inherited-templates', 'call-site-rejected:' + type(e).__name__, case, 'grammar modules', str(e)[:160])
+                continue
+            for text in (b'a b', b'a', b'a!', b'a  a', b'a a b', b'aa', b' a', b'a !', b''):
+                R.count('inherited-templates', (k, text), nontrivial=True)
+                a, b = outcome(gc, text), outcome(ge, text)
+                if a != b:
+                    R.counterexample('inherited-templates', 'call-differs-from-expansion', dict(case, text=repr(text)), b, a)
+                else:
+                    R.traces += 1
 
 
 def run(R):
